@@ -115,7 +115,7 @@ fn watch_end() {
 }
 
 /// number of hand-written histories run before the random ones
-pub const N_DIRECTED: usize = 5;
+pub const N_DIRECTED: usize = 8;
 
 pub fn penalty_num(loc: u32, class: u32) -> u32 {
     1000 + loc * 10 + class
@@ -327,7 +327,48 @@ impl<'a> Gen<'a> {
         let mut ops: Vec<HOp> = vec![HOp::Reg { user: 1 }, HOp::Reg { user: 2 }];
         // one tracker reaches 100 confirmations in the very block in which another one's re-broadcast is rejected: the
         // first is refunded, the second is not (three spacings, so that one of them makes the two coincide)
-        if which == 4 {
+        if which == 7 {
+            // the node is ahead of the tower across a reorg: for the node the dispute is back in the mempool, the tower still
+            // has it in its 6-block cache; a late appointment for that locator must still get its own penalty to the node
+            ops.push(conn(vec![1]));
+            ops.push(HOp::Dump);
+            self.world.known_txs.insert(penalty_num(1, 0));
+            ops.push(HOp::Add { user: 2, loc: 1, blob: enc(1, 260), tsd: 10, sig: SigKind::Valid });
+            ops.push(HOp::Get { user: 2, loc: 1, sig: SigKind::Valid });
+            ops.push(empty());
+        } else if which == 6 {
+            // a late appointment whose penalty the node refuses, a block, then the same appointment again with the node
+            // accepting: the first refusal must not be remembered across the block
+            let mut refuse = BTreeMap::new();
+            refuse.insert(penalty_num(2, 0), SendR::Rpc(-26));
+            ops.push(conn(vec![2]));
+            ops.push(HOp::Conn { txs: vec![], send: refuse.clone(), get: BTreeMap::new() });
+            self.world.known_txs.insert(penalty_num(2, 0));
+            self.world.policy.insert(penalty_num(2, 0), SendR::Rpc(-26));
+            ops.push(HOp::Add { user: 1, loc: 2, blob: enc(2, 260), tsd: 10, sig: SigKind::Valid });
+            ops.push(HOp::Sub { user: 1, sig: SigKind::Valid });
+            ops.push(empty());
+            ops.push(HOp::Dump);
+            ops.push(HOp::Add { user: 2, loc: 2, blob: enc(2, 260), tsd: 10, sig: SigKind::Valid });
+            ops.push(HOp::Get { user: 2, loc: 2, sig: SigKind::Valid });
+            ops.push(empty());
+        } else if which == 5 {
+            // two trackers of one user reach their 100th confirmation in the same block (and one of another user):
+            // every refund must reach the users table, not only the first of each user
+            ops.push(HOp::Add { user: 1, loc: 1, blob: enc(1, 260), tsd: 10, sig: SigKind::Valid });
+            ops.push(HOp::Add { user: 1, loc: 2, blob: enc(2, 2049), tsd: 10, sig: SigKind::Valid });
+            ops.push(HOp::Add { user: 2, loc: 3, blob: enc(3, 260), tsd: 10, sig: SigKind::Valid });
+            ops.push(conn(vec![1, 2, 3]));
+            ops.push(conn(vec![penalty_num(1, 0), penalty_num(2, 0), penalty_num(3, 0)]));
+            for _ in 0..100 {
+                ops.push(empty());
+            }
+            ops.push(HOp::Sub { user: 1, sig: SigKind::Valid });
+            ops.push(HOp::Restart);
+            ops.push(HOp::Sub { user: 1, sig: SigKind::Valid });
+            ops.push(HOp::Sub { user: 2, sig: SigKind::Valid });
+            ops.push(empty());
+        } else if which == 4 {
             // (run with a subscription duration above 2^31 blocks) a renewal whose new expiry runs into the u32 cap: the
             // receipt, the gatekeeper's memory and the users row must carry the same (capped) number, also after a restart
             ops.push(HOp::Reg { user: 1 });
@@ -376,6 +417,14 @@ impl<'a> Gen<'a> {
                 for t in txs {
                     self.world.known_txs.insert(*t);
                 }
+            }
+            if which == 7 && matches!(op, HOp::Dump) {
+                self.world.confirmed.remove(&1);
+                self.world.mempool.insert(1);
+            }
+            if which == 6 && matches!(op, HOp::Dump) {
+                // from here on the node accepts the penalty it refused before
+                self.world.policy.insert(penalty_num(2, 0), SendR::Ok);
             }
             self.run_op(op);
         }
